@@ -4947,7 +4947,10 @@ bool RemapCompareLess(FunctionRemap *in1, FunctionRemap *in2) {
 
   // ok maybe something to do with return strength..
 
-  return false;
+  // Break ties deterministically, so that the order in which equally-ranked
+  // overloads are tried does not depend on where the remaps happen to live in
+  // memory.
+  return in1->_function_signature < in2->_function_signature;
 }
 
 /**
